@@ -67,6 +67,11 @@ func C04(tier string) int {
 				Args: []Arg{I(f.words), I(f.T), I(mode)}, Setup: func(in *symgo.Interp) { in.MaxUnion = 64; in.SchedOrder = []int{2, 3, 4} }})
 		}
 	}
+	// port selection: processors whose input and output counts need different index widths
+	for _, q := range [][5]int{{1, 3, 2, 1, 0}, {1, 3, 1, 2, 1}, {0, 2, 1, 3, 2}, {2, 1, 0, 1, 0}, {3, 2, 1, 4, 3}, {1, 4, 3, 2, 0}} {
+		cfgs = append(cfgs, Config{Name: fmt.Sprintf("port selection: producer N=%d M=%d sends on o%d, consumer N=%d reads i%d", q[0], q[1], q[2], q[3], q[4]), Func: "zzC04Port",
+			Args: []Arg{I(q[0]), I(q[1]), I(q[2]), I(q[3]), I(q[4])}, Setup: func(in *symgo.Interp) { in.SchedOrder = []int{2, 3} }})
+	}
 	sp := &Spec{
 		ID: "C04", Level: "model_checking", Tier: tier, Harness: h,
 		LoadPkgs: []string{"pkg/bondmachine"},
@@ -75,14 +80,15 @@ func C04(tier string) int {
 		Assumptions: []string{
 			"simulator side only: bondmachine.VM.Step, Processor_execute, procbuilder.VM.Step, R2owa/I2rw.Simulate, waitRecvI2rw, Add/ExecuteDeferredInstructions executed symbolically; the generated hardware is not part of this check yet",
 			"one producer (opcodes inc,j,nop,r2owa) bonded to k consumers (cpy,i2rw,inc,j,nop), 8-bit registers, R=1; every ROM word of the first program_words addresses and every initial register is a solver variable (any instruction mix, any padding, hence any relative speed); the rest of the ROM jumps to 0",
+			"port-selection configurations: concrete two-instruction programs on processors whose input and output counts need different index widths; the value sent on o<j> (a solver variable) is received from i<e> within 8 ticks",
 			"fan-in configurations: two producers bonded to the two inputs of one consumer (N=2), the same monitor per link",
 			"bounded horizon (ticks) from the reset state of the handshake flags; configurations with delays<=D give every opcode a single-delay distribution whose delay is a solver variable in 0..D (SimDelayMap); simbox.DelayDistribution.GetValue is stubbed by its contract (returns one of the delays of the distribution), multi-valued distributions are outside",
 			"goroutines: deterministic run-until-block scheduler, sends do not block, two resume orders of the processor workers; Go-scheduler interleavings and data races are outside (C09)",
 			"mode=known-situations-excluded assumes away exactly the two recorded defects: (i) an i2rw executing while its input's received flag is still high from the previous capture, (ii) an r2owa starting a new offer while received is still high from the previous transfer; everything else must hold there",
 			"a panic of the simulator is assumed away (operands out of range)",
 		},
-		Bounds: map[string]interface{}{"family_consumers_words_ticks": fam},
-		Rule:   "states/transitions: one symbolic state per tick covering all programs and register values at once; obligations: no-loss, no-duplicate, same-value-in-order per consumer per tick",
+		Bounds:       map[string]interface{}{"family_consumers_words_ticks": fam},
+		Rule:         "states/transitions: one symbolic state per tick covering all programs and register values at once; obligations: no-loss, no-duplicate, same-value-in-order per consumer per tick",
 		ViolationKey: func(o *Outcome, ob *OblResult) string { return o.Config.Name + ";" + ob.Kind + ":" + ob.Tag },
 		MaxReplays:   6,
 	}
@@ -112,10 +118,10 @@ func C04(tier string) int {
 		fmt.Println("MACHINERY:", err)
 		return 2
 	}
-	type hp struct{ k, words, T, mode int }
-	hfam := []hp{{1, 2, 16, 0}, {1, 2, 16, 1}, {1, 3, 16, 1}, {2, 2, 14, 1}}
+	type hp struct{ k, words, T, mode, outs int }
+	hfam := []hp{{1, 2, 16, 0, 1}, {1, 2, 16, 1, 1}, {1, 3, 16, 1, 1}, {2, 2, 14, 1, 1}, {2, 3, 14, 1, 2}}
 	if tier == "thorough" {
-		hfam = []hp{{1, 2, 24, 0}, {1, 2, 24, 1}, {1, 3, 24, 1}, {1, 4, 20, 1}, {2, 2, 20, 0}, {2, 2, 20, 1}, {2, 3, 18, 1}, {3, 2, 16, 1}}
+		hfam = []hp{{1, 2, 24, 0, 1}, {1, 2, 24, 1, 1}, {1, 3, 24, 1, 1}, {1, 4, 20, 1, 1}, {2, 2, 20, 0, 1}, {2, 2, 20, 1, 1}, {2, 3, 18, 1, 1}, {3, 2, 16, 1, 1}, {2, 3, 18, 1, 2}, {2, 4, 16, 1, 2}}
 	}
 	hout := make([]Outcome, len(hfam))
 	var wg sync.WaitGroup
@@ -127,7 +133,7 @@ func C04(tier string) int {
 		wg.Add(1)
 		go func(i int, f hp) {
 			defer wg.Done()
-			hout[i] = c04HDL(f.k, f.words, f.T, f.mode)
+			hout[i] = c04HDLOuts(f.k, f.words, f.T, f.mode, f.outs)
 		}(i, f)
 	}
 	prog := LoadProgram(sp.LoadPkgs, h)
